@@ -122,6 +122,8 @@ mod dim_extensions;
 pub mod interp1d;
 pub mod interp2d;
 pub mod vector_extensions;
+#[cfg(ndarray_interp_verif)]
+pub mod verif_hooks;
 
 /// Errors during Interpolator creation
 #[derive(Debug, Error)]
@@ -152,6 +154,8 @@ pub enum InterpolateError {
 ///  - Types should be annotated to ensure type inference does not break
 /// the contract by accident
 unsafe fn cast_unchecked<A, B>(a: A) -> B {
+    #[cfg(ndarray_interp_verif)]
+    verif_hooks::cast_monitor::<A, B>();
     let ptr = &*ManuallyDrop::new(a) as *const A as *const B;
     unsafe { ptr.read() }
 }
